@@ -448,7 +448,8 @@ def run(spec):
         c['stratified_sweep_runs'] = 1
     c['granularity_opcode' if spec['sched'].get('opcode') else 'granularity_line'] = 1
     c['calls'] = sum(len(t) for t in spec['threads'])
-    res['pairs'] = conc['pairs']
+    res['sets'] = {'parked_site_x_running_shared_function': conc['pairs'],
+                   'preempted_at_shared_site': conc['park_sites']}
     for site in conc['park_sites']:
         name, line = site.rsplit(':', 1)
         for probe, (fn, lo, hi) in PROBE_RANGES.items():
@@ -592,6 +593,9 @@ def extra_evidence(st):
                      'lock_block': st.counters.get('lock_block_events', 0)},
         shared_state_names=SHARED_NAMES,
         shared_state_functions=sorted(set(co.co_name for co in SHARED)),
+        interleaving_measure='distinct_nontrivial counts distinct full step digests; distinct_sets counts distinct '
+        '<site where a thread was parked | shared-state function another thread executed meanwhile> pairs and '
+        'distinct shared-state sites at which a thread was pre-empted',
         probe_sites=PROBE_RANGES, probes_reached=probes, probes_unreached=unreached,
         sim_locks_created_by_package=sched.LOCK_STATS['created'],
         corpus_items=len(ITEMS),
